@@ -60,8 +60,8 @@ int main(int argc, char** argv) {
             std::string st; int w = 0;
             if (P[t].op == "get") { std::pair<char*, std::size_t> out{nullptr, 0}; status rc = get<char>(&ti, k, out); st = rc == status::OK ? "OK" : "NOT_EXIST"; w = rc == status::OK ? (out.first ? *(int*)out.first : 0) : 0; }
             else if (P[t].op == "put") { int id = (int)t + 1; int buf[2] = {id, id}; status rc = put<char>(tok[t], &ti, k, (char*)buf, false, 8); st = rc == status::OK ? "OK" : "OTHER"; }
-            else if (P[t].op == "scan") { std::vector<std::tuple<std::string, char*, std::size_t>> tl; std::vector<std::pair<node_version64_body, node_version64*>> nv;
-                scan<char>(&ti, "", scan_endpoint::INF, "", scan_endpoint::INF, tl, &nv, 0, false); st = "OK";
+            else if (P[t].op == "scan" || P[t].op == "rscan") { std::vector<std::tuple<std::string, char*, std::size_t>> tl; std::vector<std::pair<node_version64_body, node_version64*>> nv;
+                bool rtl = P[t].op == "rscan"; scan<char>(&ti, "", scan_endpoint::INF, "", scan_endpoint::INF, tl, &nv, rtl ? 1 : 0, rtl); st = "OK";
                 std::string ws = "["; for (std::size_t i = 0; i < tl.size(); i++) { if (i) ws += ","; char* p = std::get<1>(tl[i]); ws += "[" + std::to_string((int)(unsigned char)std::get<0>(tl[i])[0]) + "," + std::to_string(p ? *(int*)p : 0) + "]"; } ws += "]";
                 M.push_back({vs::S.log.size(), "{\"e\":\"ret\",\"t\":" + T + ",\"st\":\"OK\",\"w\":" + ws + ",\"nvn\":" + std::to_string(nv.size()) + "}"}); return; }
             else if (P[t].op == "iscan") { long nvn = 0; auto cb = [&](node_version64*, node_version64_body) { nvn++; return false; };
